@@ -74,7 +74,8 @@ def _reader(ctx, R, roles, T):
                 # every raise reachable there is one of the two documented ones, decided by id == FAIL
                 for rn in [x for x in r if x.kind == "stmt" and isinstance(x.ast, ast.Raise)]:
                     isfail = any(fa[0][0] == "eq" and fa[1] is True and _is_const(ctx, f, fa, b"FAIL") for fa in df.facts(rn))
-                    notfail = any(fa[0][0] == "eq" and fa[1] is False and _is_const(ctx, f, fa, b"FAIL") for fa in df.facts(rn))
+                    notfail = any(fa[0][0] == "eq" and fa[1] is False and _is_const(ctx, f, fa, b"FAIL") for fa in df.facts(rn)) \
+                        or any(fa[0][0] == "eq" and fa[1] is True and _is_other_sync_id(ctx, f, fa, b"FAIL") for fa in df.facts(rn))      # `id == STAT` decides `id != FAIL`
                     s = src(rn.ast.exc) if rn.ast.exc is not None else ""
                     if isfail:
                         R.check("AdbCommandFailureException" in s, "FAIL-map", q + "|fail->AdbCommandFailureException", "FAIL -> AdbCommandFailureException", "a FAIL record raises `%s` instead of AdbCommandFailureException" % s, f.loc(rn.ast))
@@ -125,6 +126,15 @@ def _is_const(ctx, f, fa, value):
     for side in fa[0][1:]:
         ok, v = ctx.fold.try_eval(eval_dump(side), f.mod, {})
         if ok and v == value:
+            return True
+    return False
+
+
+def _is_other_sync_id(ctx, f, fa, value):
+    """The fact compares with a constant sync id (4 bytes) other than `value`."""
+    for side in fa[0][1:]:
+        ok, v = ctx.fold.try_eval(eval_dump(side), f.mod, {})
+        if ok and isinstance(v, bytes) and len(v) == 4 and v != value:
             return True
     return False
 
